@@ -299,9 +299,10 @@ static vnacal_new_parameter_t *get_parameter_node(const char *function,
     type = VNACAL_GET_PARAMETER_TYPE(vpmrp);
 
     /*
-     * If the frequency vector has been given, check the frequency range.
+     * If the frequency vector has been given (and isn't empty), check
+     * the frequency range.
      */
-    if (vnp->vn_frequencies_valid) {
+    if (vnp->vn_frequencies_valid && vnp->vn_frequencies > 0) {
 	if (check_single_frequency_range(function, vnp,
 		    vnp->vn_frequency_vector[0],
 		    vnp->vn_frequency_vector[vnp->vn_frequencies - 1],
